@@ -299,11 +299,12 @@ EXTRA = {
     "C08": " Added: the terminal-state transition depends only on name and state; every declared schema ends up registered (registration rules shared with C02).",
     "C09": " Added: compare-only generation compares the core for every layout in which it lies outside the client package (guard evaluated over symbolic layouts incl. textual-prefix siblings); the registry entry of a client is overwritten, never kept.",
     "C10": " Added: the same diff-coverage rule; a write path built from the parent of a directory the function was given (a sibling write) is a violation.",
-    "C11": " Added: the import header of the regenerated alias file covers every base class the union of codes can need; string-prefix predicates are modelled by the path algebra.",
-    "C13": " Added: every EndpointVisitor is built over the schema registry (a mock signature otherwise differs for inline item types).",
+    "C11": " Added: the import header of the regenerated alias file covers every base class the union of codes can need; string-prefix predicates are modelled by the path algebra; the shared-core predicate must also hold for a core embedded in the first client's package (it becomes shared when a later client names it).",
+    "C12": " Added: producers of dot-relative module paths (RenderContext path helpers) may only feed add_relative_import, never an absolute import registration.",
+    "C13": " Added: every EndpointVisitor is built over the schema registry (a mock signature otherwise differs for inline item types); a consumer that reads the coroutine/async-generator nature from the single line closing a rendered signature obliges the signature writer to keep the whole return annotation on that line.",
     "C14": " Added: the generated get_mapping() has one entry per discriminator value (written from the spec's mapping or an item-wise sequence of it, never from a re-keyed dict).",
     "C15": " Added: json.dumps used as a Python-literal maker for spec text passes ensure_ascii=False (non-BMP characters survive); re-splitting is judged by provenance, escaping helpers are recognised by their bodies.",
-    "C16": " Added: the raw-dict fallback of union decoding applies to dict[str, Any] only (guard evaluated over {str, other} x {Any, other}).",
+    "C16": " Added: the raw-dict fallback of union decoding applies to dict[str, Any] only (guard evaluated over {str, other} x {Any, other}); no value computed from a class is memoised on the class and read back through an inheriting lookup.",
     "C17": " Added: where plugin-added params/cookies are merged into the caller's value, that value is converted with dict() only under a type test.",
     "C18": " Added: the joined data reaches the event unchanged (no strip / replace on it).",
     "C19": " Added: the recursion context is threaded through every recursive parse (declaration-order independence); a strict JSON parse is selected by metadata, never by sniffing the text.",
